@@ -1,1 +1,37 @@
-(* stub *)
+(* C05 — Sprints terminate within the configured limits.
+   Statements only; proofs are in proofs/EngineProofs.v.  Model: model/Engine.v. *)
+From Coq Require Import List NArith ZArith Bool.
+From Verif Require Import model.Lang model.Engine proofs.EngineProofs.
+Import ListNotations.
+Open Scope N_scope.
+
+(* Truncation to a configured limit (any integer, as engine.Builder accepts any int) is always defined
+   (no negative slice bound = no Go panic), never yields more than max(limit,0) characters, and yields
+   the text itself or a prefix of it, possibly followed by "...".  Texts are code-point lists: a cut
+   cannot split a character. *)
+Theorem c05_truncate_ellipsis : forall (s : text) (limit : Z),
+  exists t, trunc_ellipsis s limit = Some t /\ (Z.of_nat (length t) <= Z.max limit 0)%Z /\
+            (t = s \/ exists k, t = firstn k s \/ t = firstn k s ++ ellipsis).
+Proof. exact trunc_ellipsis_spec. Qed.
+Print Assumptions c05_truncate_ellipsis.
+
+Theorem c05_truncate_plain : forall (s : text) (limit : Z),
+  exists t, trunc s limit = Some t /\ (Z.of_nat (length t) <= Z.max limit 0)%Z /\ (t = s \/ exists k, t = firstn k s).
+Proof. exact trunc_spec. Qed.
+Print Assumptions c05_truncate_plain.
+
+(* a text within the limit is left alone (truncation does not destroy short values) *)
+Theorem c05_truncate_short_unchanged : forall (s : text) (limit : Z),
+  (Z.of_nat (length s) <= limit)%Z -> trunc_ellipsis s limit = Some s /\ trunc s limit = Some s.
+Proof. intros s limit H; split; [exact (trunc_ellipsis_short s limit H) | exact (trunc_short s limit H)]. Qed.
+Print Assumptions c05_truncate_short_unchanged.
+
+(* no engine call of the model panics, whatever the flows, option values, session and resume *)
+Theorem c05_start_never_panics : forall (a : assets) (t : trigger) (flow : id), start a t flow <> RPanic.
+Proof. exact start_no_panic. Qed.
+Print Assumptions c05_start_never_panics.
+
+Theorem c05_resume_never_panics : forall (a : assets) (s : session) (r : resume) (tmo : text),
+  resume_session a s r tmo <> Resumed RPanic.
+Proof. exact resume_no_panic. Qed.
+Print Assumptions c05_resume_never_panics.
